@@ -17,7 +17,7 @@
 
   `Ev` = an appended event (sequence, harness tag); a state write (e.g. `txn.store_stage`) is a tag.
   Ghost fields: `tainted` (an inner block rolled back while an outer block is still open: the queue
-  `pending` now contains events that no longer exist), `swallowed` (such an outer block then COMMITTED,
+  `pending` now contains events that no longer exist — unless the code clears the queue there, flag `c`), `swallowed` (such an outer block then COMMITTED,
   i.e. the inner exception did not propagate).
 -/
 import Stab.Model.Basic
@@ -56,7 +56,9 @@ def St.init : St := {}
 /-- AUTOINCREMENT on a table without deletes -/
 def nextSeq (s : St) : Nat := s.durable.length + s.uncommitted.length + 1
 
-def step (s : St) : Op → St
+/-- one op; `c` = does the inner-block branch of `abort_store_transaction` clear `scope.pending`
+    (generated flag `Stab.Gen.TxnShape.innerAbortClearsPending`; `false` for the code as shipped) -/
+def step (c : Bool) (s : St) : Op → St
   | .begin =>
     if s.depth = 0 then { s with depth := 1, pending := [], tainted := false }
     else { s with depth := s.depth + 1 }
@@ -90,11 +92,11 @@ def step (s : St) : Op → St
     -- abort_store_transaction()
     if s.depth = 0 then s
     else if s.depth = 1 then { s with depth := 0, pending := [], tainted := false }
-    else { s with depth := s.depth - 1, tainted := true }
+    else { s with depth := s.depth - 1, tainted := !c, pending := if c then [] else s.pending }
   | .crash =>
     { s with uncommitted := [], wUncommitted := [], pending := [], depth := 0, tainted := false }
 
-def run (s : St) (ops : List Op) : St := ops.foldl step s
+def run (c : Bool) (s : St) (ops : List Op) : St := ops.foldl (step c) s
 
 /-- output of one op for the driver -/
 def opOut (before after : St) : Op → String
@@ -105,7 +107,7 @@ def opOut (before after : St) : Op → String
   | .abort => s!"d{after.depth}p{after.published.length}"
   | .crash => "x"
 
-/-! ### driver: `txnscope run B;A1;W2;B;R;C;X`  → per-op outputs joined by `|`, then ` # ` and the final logs -/
+/-! ### driver: `txnscope run <innerAbortClears 0|1> B;A1;W2;B;R;C;X`  → per-op outputs joined by `|`, then ` # ` and the final logs -/
 
 def parseOp (s : String) : Option Op :=
   if s == "B" then some .begin
@@ -122,20 +124,20 @@ def showEvs (l : List Ev) : String :=
 def showSt (s : St) : String :=
   s!"durable={showEvs s.durable} published={showEvs s.published} writes={Parse.showNats s.wDurable} depth={s.depth}"
 
-def runOut : St → List Op → List String → St × List String
+def runOut (c : Bool) : St → List Op → List String → St × List String
   | s, [], acc => (s, acc)
   | s, op :: rest, acc =>
-    let s' := step s op
-    runOut s' rest (acc ++ [opOut s s' op])
+    let s' := step c s op
+    runOut c s' rest (acc ++ [opOut s s' op])
 
 def drive (rest : String) : String :=
   match rest.splitOn " " with
-  | ["run", ops] =>
-    match (if ops == "-" then some [] else Parse.all? parseOp (ops.splitOn ";")) with
-    | some ops =>
-      let (s, outs) := runOut St.init ops []
+  | ["run", c, ops] =>
+    match Parse.bool? c, (if ops == "-" then some [] else Parse.all? parseOp (ops.splitOn ";")) with
+    | some c, some ops =>
+      let (s, outs) := runOut c St.init ops []
       (if outs.isEmpty then "-" else "|".intercalate outs) ++ " # " ++ showSt s
-    | none => "bad-request"
+    | _, _ => "bad-request"
   | _ => "bad-request"
 
 end Stab.TxnScope
